@@ -8,5 +8,11 @@ SPEC = dict(
     runs=[
         dict(pkg="./lib/breaker", run="^TestVerifC01(Model|TripRecover)$", timeout=240, timeout_thorough=1500),
         dict(pkg="./lib/breaker", run="^TestVerifC01Race$", race=True, timeout=240, timeout_thorough=1500, count_thorough=5),
+        dict(pkg="./api/handler", run="^TestVerifC01", timeout=240, timeout_thorough=1500),
+        dict(pkg="./rpc/internal/codes", run="^TestVerifC01", timeout=240, timeout_thorough=1500),
+        dict(pkg="./rpc/internal/clientinterceptors", run="^TestVerifC01", timeout=240, timeout_thorough=1500),
+        dict(pkg="./rpc/internal/serverinterceptors", run="^TestVerifC01", timeout=240, timeout_thorough=1500),
+        dict(pkg="./lib/store/sqlx", run="^TestVerifC01", timeout=240, timeout_thorough=1500),
+        dict(pkg="./lib/store/redis", run="^TestVerifC01", timeout=240, timeout_thorough=1500),
     ],
 )
